@@ -232,3 +232,14 @@ Definition dflags_of (c : dcase) : list bool :=
   [ negb decl && negb (val_nonfinite (dc_doc c)) && negb (dres_equiv m (dc_obs c));
     d; decl;
     d && match m with Ok x => negb (inst_ok (tbl_match (dc_tbl c)) (dc_env c) x) | Raise _ => false end ].
+
+(* ---- default factories: a field declared with `default=<callable>` gets, at every construction, the value
+   the callable returns THEN.  The harness fixes that value per chain; the class environment of a case is
+   env0 with the default of the named (class, field) pairs replaced by it. *)
+From TP Require Export Struct.Defaults.
+Definition set_default (ov : pystr * pystr * pyval) (c : classdef) : classdef :=
+  let '(cn, fn, d) := ov in
+  if pystr_eqb (c_name c) cn then with_default c fn d else c.
+
+Definition override_defaults (e : env) (ovs : list (pystr * pystr * pyval)) : env :=
+  fold_left (fun e' ov => map (set_default ov) e') ovs e.
